@@ -37,5 +37,15 @@ CFG = DC.Config("C13", TABLE_KINDS + ["XBW"], make_cmds, nsets=(10, 30), big=Tru
                      "every in-bucket offset. Non-trivial = an iterator drained; distinct by (kind, params, S, command).")
 
 
+# witness of the recorded finding htfc-iterator-decoder-crash (minimised by the thorough tier): PFC scans the same set correctly
+import json as _json, os as _os
+try:
+    _W = [f for f in _json.load(open(_os.path.join(_os.path.dirname(_os.path.abspath(__file__)), "..", "..", "known_findings.json")))["findings"]
+          if f["key"] == "htfc-iterator-decoder-crash"][0]["witness"]["S"]
+    CFG.extra_sets = [(("PFC", "HTFC"), "htfc-iterator-witness", sorted(bytes.fromhex(x) for x in _W), ["7"])]
+except Exception:
+    pass
+
+
 def check(run, tier, seed, replay):
     DC.run(run, CFG, tier, seed, replay)
